@@ -3,6 +3,9 @@
 // never invalidated — the programs of the C15 statement.  Every thread unsubscribes only handles it obtained itself.
 //   mix 0: balanced      mix 1: notify-heavy      mix 2: subscribe/unsubscribe/shrink-heavy      mix 3: read-only ops after a
 //   subscribe phase (notify/exists/depth)      mix 4: as 0 with an `int` payload on the specific keys
+// OUT-OF-CONTRACT probes (never part of the check; they document what the statement excludes, see harness/drf/mutants.py probes):
+//   mix 8: threads also call mute()/unmute()/isValid() through their handles (not locked by ConcurrentInvoker)
+//   mix 9: some observers invalidate themselves, so Subject::notify removes them lazily — a write under the READ lock
 #include "drf_common.h"
 
 #include <tulz/observer/routing/ConcurrentSubjectRouter.h>
@@ -42,6 +45,9 @@ int main(int argc, char **argv) {
             auto subscribe = [&] {
                 auto &key = specific[rng.below((unsigned) specific.size())];
                 if (payload) mine.push_back(router.subscribe<int>(key, [](int v) { delivered.fetch_add(v, std::memory_order_relaxed); }));
+                else if (a.mix == 9 && rng.below(2) == 0) mine.push_back(router.subscribe(key, [](Observer<>::SelfView self) {
+                    if (delivered.fetch_add(1, std::memory_order_relaxed) % 3 == 0) self->invalidate();
+                }));
                 else mine.push_back(router.subscribe(key, [] { delivered.fetch_add(1, std::memory_order_relaxed); }));
             };
             if (a.mix == 3) { subscribe(); subscribe(); }
@@ -52,7 +58,14 @@ int main(int argc, char **argv) {
                 unsigned pSub = a.mix == 1 ? 8 : a.mix == 2 ? 30 : a.mix == 3 ? 0 : 18;
                 unsigned pUnsub = a.mix == 1 ? 6 : a.mix == 2 ? 25 : a.mix == 3 ? 0 : 15;
                 unsigned pShrink = a.mix == 1 ? 4 : a.mix == 2 ? 20 : a.mix == 3 ? 0 : 10;
-                if (r < pNotify) {
+                if (a.mix == 8 && !mine.empty() && rng.below(4) == 0) {
+                    auto &h = mine[rng.below((unsigned) mine.size())];
+                    switch (rng.below(3)) {
+                        case 0: h->mute(); break;
+                        case 1: h->unmute(); break;
+                        default: sink += h->isValid(); break;
+                    }
+                } else if (r < pNotify) {
                     if (payload) sink += (long) router.notify(specific[rng.below((unsigned) specific.size())], 1);
                     else if (rng.below(3) == 0) sink += (long) router.notify(pattern[rng.below((unsigned) pattern.size())]);
                     else sink += (long) router.notify(specific[rng.below((unsigned) specific.size())]);
@@ -61,7 +74,7 @@ int main(int argc, char **argv) {
                 } else if (r < pNotify + pSub + pUnsub) {
                     if (!mine.empty()) {
                         size_t k = rng.below((unsigned) mine.size());
-                        mine[k]->unsubscribe();
+                        if (a.mix != 9) mine[k]->unsubscribe();
                         mine.erase(mine.begin() + (long) k);
                     }
                 } else if (r < pNotify + pSub + pUnsub + pShrink) {
@@ -75,7 +88,7 @@ int main(int argc, char **argv) {
                 }
             }
             while (!mine.empty()) {
-                mine.back()->unsubscribe();
+                if (a.mix != 9) mine.back()->unsubscribe();
                 mine.pop_back();
             }
             delivered.fetch_add(sink & 1, std::memory_order_relaxed);
